@@ -67,6 +67,9 @@ enum Cat {
 	Array,
 	Map,
 	Named,
+	/// serde_avro_fast names every duration branch `Duration`: at most one per union is generated
+	/// (two of them are probed separately in C01 as a known finding)
+	Duration,
 }
 
 pub fn gen_schema(rng: &mut Rng, cfg: &SchemaGenCfg) -> RSchema {
@@ -147,6 +150,7 @@ impl<'a> Gen<'a> {
 			Kind::Array(_) => Cat::Array,
 			Kind::Map(_) => Cat::Map,
 			Kind::Union(_) => unreachable!(),
+			Kind::Fixed { size: 12, .. } if matches!(self.nodes[id].logical, Some(Logical::Duration)) => Cat::Duration,
 			_ => Cat::Named,
 		}
 	}
